@@ -6,7 +6,9 @@ N == Len(Rec)
 VARIABLES l, phase, bad
 vars == <<l, phase, bad>>
 NB(alg) == CASE alg = "Skein256" -> 32 [] alg = "Skein512" -> 64 [] alg = "Skein1024" -> 128
-Check(e) == e.res = "ok" /\ Len(e.out) = e.n /\ e.out = SkeinHash(e.msg, NB(e.alg), e.n)
+\* "digestw": a window (output blocks blk .. blk+nblk-1) of a digest too long to recompute whole; total is the length returned
+CheckWin(e) == e.res = "ok" /\ e.total = e.n /\ e.out = SkeinHashWin(e.msg, NB(e.alg), e.n, e.blk, e.nblk)
+Check(e) == IF e.ev = "digestw" THEN CheckWin(e) ELSE e.res = "ok" /\ Len(e.out) = e.n /\ e.out = SkeinHash(e.msg, NB(e.alg), e.n)
 Init == l \in 1..N /\ phase = 0 /\ bad = FALSE
 Next == /\ phase = 0 /\ phase' = 1 /\ l' = l
         /\ bad' = IF Check(Rec[l]) THEN FALSE ELSE PrintT(<<"REJECT", l>>)
